@@ -759,7 +759,9 @@ def nodes(max_leaves=10, tagspecs=None, texts=None, allow_nonspecific=False, sty
 def documents(max_leaves=10, **kw):
     handles = st.sampled_from([[], [], [], [("!e!", "tag:example.com,2000:")], [("!e!", "!my-")],
                                [("!e!", "tag:e.org,2000:"), ("!f-1!", "tag:f.org,2001:x/")],
-                               [("!e0!", "tag:e.org,2009:"), ("!9_z!", "!nine-")], [("!e0!", "!zero-"), ("!e!", "tag:e.org,2000:")]])
+                               [("!e0!", "tag:e.org,2009:"), ("!9_z!", "!nine-")], [("!e0!", "!zero-"), ("!e!", "tag:e.org,2000:")],
+                               # the default handles redefined for one document: the same shorthand means something else in the next
+                               [("!", "tag:yaml.org,2002:")], [("!!", "tag:example.com,2000:")], [("!", "!my-"), ("!!", "tag:e.org,2000:x/")]])
     return st.fixed_dictionaries({
         "version": st.sampled_from([None, None, None, (1, 1), (1, 2)]),
         "handles": handles,
